@@ -22,6 +22,8 @@ func replay(e *env) {
 		switch c.Sub {
 		case "sound", "fee":
 			msg = e.replaySubmit(&c)
+		case "script":
+			msg = e.replayScript(&c)
 		case "encoding":
 			msg = e.replayEncoding(&c)
 		case "proposable":
@@ -205,4 +207,21 @@ func (e *env) replayAttrBlock(c *caseRec) string {
 		return strings.Join(out, "; ")
 	}
 	return "harness: unknown attribute shape " + c.Rule
+}
+
+func (e *env) replayScript(c *caseRec) string {
+	rn := e.replayRunner(c)
+	defer rn.close()
+	b := unhex(c.Tx)
+	var v verdict
+	switch c.Path {
+	case "addblock":
+		v = rn.viaBlock(b)
+	default:
+		v = rn.via(c.Path, b)
+	}
+	if v.OK != strings.HasPrefix(c.Want, "accepted") {
+		return fmt.Sprintf("%s; reference says %s (%s), got %s %s", c.Note, c.Want, c.Why, v, v.Err)
+	}
+	return ""
 }
